@@ -25,32 +25,36 @@ pub fn copy_dir(from: &Path, to: &Path) {
     }
 }
 
-fn build_schema() -> tantivy::schema::Schema {
+/// The tool's schema (variant 0), or what another version might have left behind: other field names (1), the same field
+/// names with `name` indexed by whole words without positions (2).
+fn build_schema(variant: usize) -> tantivy::schema::Schema {
     use tantivy::schema::*;
-    let text_field_indexing = TextFieldIndexing::default()
-        .set_tokenizer("ngram")
-        .set_index_option(IndexRecordOption::WithFreqsAndPositions);
+    let text_field_indexing = if variant == 2 {
+        TextFieldIndexing::default().set_tokenizer("default").set_index_option(IndexRecordOption::Basic)
+    } else {
+        TextFieldIndexing::default().set_tokenizer("ngram").set_index_option(IndexRecordOption::WithFreqsAndPositions)
+    };
     let text_options = TextOptions::default()
         .set_indexing_options(text_field_indexing)
         .set_stored();
     let mut schema = Schema::builder();
-    schema.add_bytes_field("data", STORED);
-    schema.add_text_field("name", text_options);
+    schema.add_bytes_field(if variant == 1 { "payload" } else { "data" }, STORED);
+    schema.add_text_field(if variant == 1 { "title" } else { "name" }, text_options);
     schema.build()
 }
 
-/// An index "written for other data": the tool's schema, three documents that are not shipped.
-pub fn mkold(dir: &Path) {
+/// An index "written for other data" or by another version: three documents that are not shipped, under the schema variant.
+pub fn mkold(dir: &Path, variant: usize) {
     use tantivy::tokenizer::{LowerCaser, NgramTokenizer, TextAnalyzer};
     std::fs::create_dir_all(dir).unwrap();
-    let schema = build_schema();
+    let schema = build_schema(variant);
     let index = tantivy::Index::create_in_dir(dir, schema.clone()).unwrap();
     index.tokenizers().register(
         "ngram",
         TextAnalyzer::from(NgramTokenizer::new(1, 7, true)).filter(LowerCaser),
     );
-    let data = schema.get_field("data").unwrap();
-    let name = schema.get_field("name").unwrap();
+    let data = schema.get_field(if variant == 1 { "payload" } else { "data" }).unwrap();
+    let name = schema.get_field(if variant == 1 { "title" } else { "name" }).unwrap();
     let mut w = index.writer_with_num_threads(1, 50_000_000).unwrap();
     for t in ["bogus one", "bogus two", "mass earth bogus"] {
         let mut d = tantivy::Document::default();
@@ -267,11 +271,15 @@ fn run_vector(ctx: &Ctx, i: usize, vec: &Value, docs_model: u64) -> Value {
                     ("Absent", "Absent") => {}
                     ("Current", "New") => copy_dir(&ctx.work.join("template_good/facts"), &data),
                     ("OtherVersion", "Old") => {
-                        copy_dir(&ctx.work.join("template_old/index"), &index_path);
+                        // another version may have used another schema -- unless the schedule goes on to replace the metadata
+                        // by one that names *this* version (meta_NoHash): an index vouched for by this version has its schema
+                        let names_this_version = hist.iter().any(|h| h["what"] == "meta_NoHash");
+                        let variant = if names_this_version { 0 } else { real % 3 };
+                        copy_dir(&ctx.work.join(format!("template_old{}/index", variant)), &index_path);
                         write_meta(&meta_path, "0.0.0-other", &ctx.hash);
                     }
                     ("OtherHash", "Old") => {
-                        copy_dir(&ctx.work.join("template_old/index"), &index_path);
+                        copy_dir(&ctx.work.join("template_old0/index"), &index_path);
                         write_meta(&meta_path, &ctx.version, "00000000000000000000000000000000");
                     }
                     other => panic!("unknown initial state {:?}", other),
@@ -484,7 +492,9 @@ pub fn replay(args: &[String]) -> i32 {
     };
     let version = meta["version"].as_str().unwrap_or("").to_string();
     let hash = meta["database_hash"].as_str().unwrap_or("").to_string();
-    mkold(&work.join("template_old/index"));
+    for variant in 0..3 {
+        mkold(&work.join(format!("template_old{}/index", variant)), variant);
+    }
     // reference output of the real binary on a fresh good directory
     let mut any_queries = Vec::new();
     for q in queries.iter().step_by((queries.len() / 12).max(1)).take(12) {
